@@ -1,6 +1,7 @@
 package props
 
 import (
+	"fmt"
 	"go/types"
 	"sort"
 	"strings"
@@ -307,8 +308,56 @@ func c04R2(p *engine.Prog, r *engine.Report) {
 			}
 		}
 		r.Check(ok, "C04-R2", "validateTotalCost|GetBalance(sender) vs CalculateCost/CalculateMaxCost", p.Pos(tc.Pos()), "a check comparing the sender's balance with the computed cost rejects", "no check compares the sender's balance with the transaction cost")
+		// every value the compared cost can take is a full cost (amount + tips + fee) of this transaction
+		for _, c := range engine.Calls(tc) {
+			cc, isC := c.(*ssa.Call)
+			if !isC || !engine.CallIs(cc, "math/big.Int.Cmp") || len(cc.Call.Args) != 2 {
+				continue
+			}
+			if bc, isB := engine.Unwrap(cc.Call.Args[0]).(*ssa.Call); !isB || !engine.CallIs(bc, "core/state.StateDB.GetBalance") {
+				continue
+			}
+			var leaves []ssa.Value
+			seen := map[ssa.Value]bool{}
+			var walk func(v ssa.Value)
+			walk = func(v ssa.Value) {
+				v = engine.Unwrap(v)
+				if seen[v] {
+					return
+				}
+				seen[v] = true
+				if ph, isPhi := v.(*ssa.Phi); isPhi {
+					for _, e := range ph.Edges {
+						walk(e)
+					}
+					return
+				}
+				leaves = append(leaves, v)
+			}
+			walk(cc.Call.Args[1])
+			var bad []string
+			for _, l := range leaves {
+				lc, isCall := l.(*ssa.Call)
+				full := isCall && (engine.CallIs(lc, "blockchain/fee.CalculateCost") || engine.CallIs(lc, "blockchain/fee.CalculateMaxCost"))
+				if full {
+					// on this transaction
+					onTx := false
+					for _, a := range lc.Call.Args {
+						if engine.Origin(a) == ssa.Value(tc.Params[2]) {
+							onTx = true
+						}
+					}
+					full = onTx
+				}
+				if !full {
+					bad = append(bad, engine.PathOf(l))
+				}
+			}
+			sort.Strings(bad)
+			r.Check(len(bad) == 0 && len(leaves) > 0, "C04-R2", "validateTotalCost|every compared cost is the full cost of the transaction", p.InstrPos(cc), fmt.Sprintf("%d definitions, all fee.CalculateCost/CalculateMaxCost(tx)", len(leaves)), "on some path the balance is compared with "+strings.Join(bad, ", ")+" instead of the full cost (amount + tips + fee): the amount is debited without having been covered, the balance goes negative and its sign is dropped on encoding")
+		}
 	}
-	r.Floor("C04-R2", 7, "3 fields + fee + total cost + validator + balance check")
+	r.Floor("C04-R2", 8, "3 fields + fee + total cost + validator + balance check + cost definitions")
 }
 
 func structOf(t types.Type) *types.Struct {
@@ -559,4 +608,58 @@ func c04R5(p *engine.Prog, r *engine.Report, sm *stateModel) {
 	// ---------------- R6: "restore" credits (R1) replay a per-transaction cache: the cache must be per transaction
 	envCacheResetRule(p, r, "C04-R6", "vm/env", "EnvImp")
 	r.Floor("C04-R6", 5, "EnvImp caches written back by Commit")
+	// ---------------- R7: buffered balances are read through the buffer
+	c04R7(p, r)
+}
+
+// c04R7: the contract environments buffer balances per transaction (balancesCache, written back by
+// Commit). A read of the committed balance inside those packages is sound only as the miss path of the
+// cache-through accessor: the same function looks the address up in balancesCache (and, for nested
+// environments, asks the parent) first. Any other direct read sees a balance that ignores debits made
+// earlier in the same transaction — Commit then writes the stale sum back (coins minted).
+func c04R7(p *engine.Prog, r *engine.Report) {
+	n := 0
+	for _, pkg := range []string{"vm/env", "vm/wasm"} {
+		for _, f := range funcsOfPkg(p, pkg) {
+			if f.Blocks == nil || isTestish(p.Pos(f.Pos())) {
+				continue
+			}
+			for _, c := range callsTo(f, "core/state.StateDB.GetBalance") {
+				n++
+				// a lookup in a balancesCache field whose miss edge dominates the read
+				var guards []engine.Guard
+				for _, b := range f.Blocks {
+					for _, ins := range b.Instrs {
+						lk, ok := ins.(*ssa.Lookup)
+						if !ok || !lk.CommaOk {
+							continue
+						}
+						if _, fld, okF := engine.FieldOf(engine.Origin(lk.X)); !okF || fld != "balancesCache" {
+							continue
+						}
+						if engine.Origin(lk.Index) != engine.Origin(c.Common().Args[1]) {
+							continue
+						}
+						for _, ref := range *lk.Referrers() {
+							ex, isEx := ref.(*ssa.Extract)
+							if !isEx || ex.Index != 1 {
+								continue
+							}
+							guards = append(guards, guardsWhere(f, func(cond ssa.Value) (bool, bool, string) {
+								cc, neg := stripNot(cond)
+								if cc == ssa.Value(ex) {
+									return true, neg, "cache miss"
+								}
+								return false, false, ""
+							})...)
+						}
+					}
+				}
+				ok := len(guards) > 0 && engine.OnlyThroughPass(f, c.Block(), guards)
+				r.Check(ok, "C04-R7", engine.RelName(f)+"|committed balance read only on a balancesCache miss", p.InstrPos(c), "cache-through accessor", "reads the committed balance of an address without consulting the per-transaction balance buffer first: a debit made earlier in the same transaction is ignored and Commit writes the stale sum back")
+			}
+		}
+	}
+	r.Floor("C04-R7", 2, "EnvImp.getBalance, WasmEnv.getBalance")
+	_ = n
 }
